@@ -124,7 +124,7 @@ CHECKS["C05"] = dict(
           "groupKernel_eq_def, which includes the proof that the dispatch's blocks concatenate to rows[mask]); unselected_rows_inert; for row-aligned "
           "operations cum_mask_eq_filter, rolling_sum/mean_mask_eq_filter, rolling_extremum_mask_eq_filter (max / min) and rolling_shift_diff_mask_eq_filter: "
           "at every selected row the masked run equals the run on the filtered data at the row's rank. Metamorphic correspondence on the public API for every maskable operation (reductions incl. var/std/median, cumulative, rolling, "
-          "shift/diff, EMA plain and timed) plus overwrite-unselected-values test."),
+          "shift/diff, EMA plain and timed) plus overwrite-unselected-values test. Source level (new): source_positions_eq_filter / source_bool_mask_eq_filter (translated kernel through an indexer = translated kernel on the selected rows, no bounds error) and source_cum_mask_eq_filter (translated cumulative loop, rank of the row among the selected rows)."),
     note="The EMA kernels are covered by the metamorphic run (and C10's group-independence theorems); the public pipeline above the kernels (observed filter under a mask) by correspondence. Open finding: untimed EMA treats masked rows as null values (pinned by tests).",
     technique="Lean 4 proof (corollaries of the kernel contract and of the prefix theorems; list rank/filter lemma) + metamorphic differential testing of masked vs filtered executions",
     design="§7 C05",
@@ -136,7 +136,7 @@ CHECKS["C06"] = dict(
           "unchanged by deleting the null-key rows (dropNull_at_rank rank lemma + prefix theorems), and a null-key row receives a marker that depends on no "
           "other row; the obligation all_guards_present ties this to the `key < 0` guards of the current source (extracted by the translator for nine loops). "
           "Metamorphic correspondence: every public operation (reductions, transform, cumulative, rolling, shift/diff, EMA, head/tail/nth, groups, "
-          "group_nearby_members) on data with nulls in any key position (single keys also behind a two-chunk arrow key with chunk-local codes) vs the same data with those rows deleted; constancy of the marker."),
+          "group_nearby_members; source level (new): source_null_rows_inert_reduction, source_cum_null_rows_inert, source_cum_null_row_marker relate two runs of the translated loops) on data with nulls in any key position (single keys also behind a two-chunk arrow key with chunk-local codes) vs the same data with those rows deleted; constancy of the marker."),
     note="Row selection is covered at the model level by its own property (C15) and here by the metamorphic run.",
     technique="Lean 4 proof (corollaries of kernel contract / prefix theorems via a rank lemma; source guard facts) + metamorphic differential testing",
     design="§7 C06",
@@ -159,7 +159,8 @@ CHECKS["C03"] = dict(
           "chunk_route_eq_global - a chunk-local code mapped through the chunk's pointer table equals the code against the unified label list (whole vs "
           "chunk-wise factorization). Metamorphic correspondence through the public API: baseline strategy vs random strategies (threads 1..4, whole / "
           "chunk-wise / monotonic / partially monotonic / pre-chunked arrow keys, contiguous / arrow-chunked values, random completion orders through the real "
-          "gathering code) for reductions, transform, cumulative, rolling, shift/diff, EMA, all mask kinds; three real-size cases (1M and 2M rows, no scaling)."),
+          "gathering code) for reductions, transform, cumulative, rolling, shift/diff, EMA, all mask kinds; three real-size cases (1M and 2M rows, no scaling). "
+          "Source level (new): source_blockwise_eq_single_pass - the translated _group_by_reduce run block by block (any blocks) and merged by the translated reduce_array_pair in the order of combine_chunk_results_for_factorized_key equals the translated kernel in one pass (both sides are runs of the regenerated source)."),
     note="PARTIAL: 'sums and means agree to floating-point rounding' is checked by a 1e-9 relative tolerance only (the model is exact arithmetic); real thread interleavings / data races are outside the model (tasks share no mutable arrays - assumed); the thread-count heuristic is replaced by the scaled value in the small runs and exercised unmodified in the real-size cases.",
     technique="Lean 4 proof (permutation-invariance of gathering; strategy independence as corollary of the kernel contract; pointer-table lemma) + metamorphic differential testing across strategies",
     design="§7 C03",
